@@ -77,6 +77,11 @@ def run(v):
                     "c09_mc_ident", workers=4, timeout=900, coverage=False)
     if ri.violated != "LastWordUnlessOverlapped":
         raise common.ToolError("MC_LspServer: the identifier-record deviation is not refuted (vacuous invariant)")
+    # a seeded deviation: identifiers are merged into the dictionary the document already has (they accumulate)
+    ra = common.tlc(os.path.join(SPEC, "mc", "MC_LspServer.tla"), os.path.join(SPEC, "mc", "MC_LspServer_dev_accumulate.cfg"),
+                    "c09_mc_acc", workers=4, timeout=900, coverage=False)
+    if ra.violated != "LastWordUnlessOverlapped":
+        raise common.ToolError("MC_LspServer: the accumulating-identifiers deviation is not refuted (vacuous invariant)")
     # liveness: the server always comes to rest (weak fairness of handler steps, no state constraint)
     rl = common.tlc(os.path.join(SPEC, "mc", "MC_LspServer.tla"), os.path.join(SPEC, "mc", "MC_LspServer_live.cfg"),
                     "c09_mc_live", workers=8, timeout=1800, coverage=False)
